@@ -90,6 +90,9 @@ SCENARIOS = {
                                   ["wmeta", "f#1", 0, "log", 9004, False], ["rmeta", "f#1", 0, "log"]],
     "meta-with-data-forget": [["memoize", "f#1", 0, 9011, "b", 9011, 40, None], ["wmeta", "f#1", 0, "log", 9012, True],
                               ["rmeta", "f#1", 0, "log"], ["rmeta", "f1#1", 0, "log"], ["fcall", "f#1", 0], ["rmeta", "f#1", 0, "log"]],
+    "meta-with-data-rememoize-same-result": [["memoize", "f#1", 0, 9091, "b", 9091, 40, None], ["wmeta", "f#1", 0, "log", 9092, True], ["rmeta", "f#1", 0, "log"],
+                                             ["memoize", "f#1", 0, 9093, "b", 9091, 40, None], ["rmeta", "f#1", 0, "log"], ["wmeta", "f#1", 0, "a.b", 9094, False],
+                                             ["memoize", "f#1", 0, 9095, "b", 9091, 40, None], ["rmeta", "f#1", 0, "a.b"], ["rmeta", "f#1", 0, "log"]],
     "oversize-rememoize": [["memoize", "f#1", 0, 9021, "b", 9021, 100, None], ["read", "f#1", 0],
                            ["memoize", "f#1", 0, 9022, "b", 9022, 9000, None], ["read", "f#1", 0]],
     "stale-weakref": [["memoize", "f#1", 0, 9031, "n", 9031, 200, None], ["memoize", "f#1", 0, 9032, "b", 9032, 200, None],
